@@ -143,14 +143,15 @@ def build_grid_call(case):
     import xarray as xr
     from xgcm import Grid
     N = case["N"]
-    coords = {"zc": np.arange(N) * 2.0 + 1.0, "x": np.arange(case["nx"]), "t": np.arange(2)}
+    nm = lambda x: case.get("names", {}).get(x, x)      # C13 replays the cases under other names
+    coords = {nm("zc"): np.arange(N) * 2.0 + 1.0, nm("x"): np.arange(case["nx"]), nm("t"): np.arange(2)}
     if case["has_outer"]:
-        coords["zo"] = np.arange(N + 1) * 2.0
+        coords[nm("zo")] = np.arange(N + 1) * 2.0
     ds = xr.Dataset(coords=coords)
-    zc = {"center": "zc"}
+    zc = {"center": nm("zc")}
     if case["has_outer"]:
-        zc["outer"] = "zo"
-    g = Grid(ds, coords={"Z": zc}, periodic=case["periodic"], autoparse_metadata=False)
+        zc["outer"] = nm("zo")
+    g = Grid(ds, coords={nm("Z"): zc}, periodic=case["periodic"], autoparse_metadata=False)
     da = xr.DataArray(np.array(case["da_vals"], dtype=float).reshape([l for _, l in case["dims"]]),
                       dims=[d for d, _ in case["dims"]], name=case["da_name"])
     td = None
@@ -184,7 +185,7 @@ def run_impl(case):
         g, da, target, kw, td = build_grid_call(case)
         with warnings.catch_warnings():
             warnings.simplefilter("ignore")
-            r = g.transform(da, "Z", target, **kw)
+            r = g.transform(da, case.get("names", {}).get("Z", "Z"), target, **kw)
         new = [r.dims[-1]]      # xr.apply_ufunc appends the output core dimension last
         order = sorted(r.dims)
         rt = r.transpose(*order)
@@ -208,7 +209,8 @@ def cdims(ds):
 
 def coq_tcall(case):
     N = case["N"]
-    coords = [("Center", "zc")] + ([("Outer", "zo")] if case["has_outer"] else [])
+    nm = lambda x: case.get("names", {}).get(x, x)
+    coords = [("Center", nm("zc"))] + ([("Outer", nm("zo"))] if case["has_outer"] else [])
     tens = lambda ds, vals: f"(of_list None {cdims(ds)} " + C.clist(qn(v) for v in vals) + ")"
     lev = case["levels"]
     if case["target_kind"] == "arr":
@@ -221,7 +223,8 @@ def coq_tcall(case):
     suffix = "_transformed" if case["suffix"] is None else case["suffix"]
     zc = [2.0 * i + 1.0 for i in range(N)]
     zo = [2.0 * i for i in range(N + 1)]
-    dsco = (f"(fun d => if String.eqb d \"zo\" then {tens([['zo', N + 1]], zo)} else {tens([['zc', N]], zc)})")
+    dsco = (f"(fun d => if String.eqb d {C.cstr(nm('zo'))} then {tens([[nm('zo'), N + 1]], zo)} "
+            f"else {tens([[nm('zc'), N]], zc)})")
     tc = ("{| tc_periodic := " + C.cbool(case["periodic"]) +
           "; tc_coords := " + C.clist(f"({p}, {C.cstr(d)})" for p, d in coords) +
           f"; tc_da := {tens(case['dims'], case['da_vals'])}; tc_da_name := {C.copt(case['da_name'], C.cstr)}" +
